@@ -108,6 +108,136 @@ def default_pick(prog, root, keep=(), cross=None):
     return pick
 
 
+# std combinators taking a closure are expanded into the control flow they stand for, with the closure
+# body inlined, so that a check written as `opt.filter(|p| !p.is_small_order())` or
+# `x.and_then(|v| validate(v))` is as visible to the engines as the equivalent `match`:
+#   path -> (adt, variant that runs the closure, how the payload is passed, closure branch, other branch)
+COMBINATORS = {
+    "std::option::Option::<T>::filter": ("opt", "Some", "ref", "keep_if", "none"),
+    "std::option::Option::<T>::and_then": ("opt", "Some", "val", "direct", "none"),
+    "std::option::Option::<T>::map": ("opt", "Some", "val", "wrap:opt:Some", "none"),
+    "std::option::Option::<T>::ok_or_else": ("opt", "None", "nil", "wrap:res:Err", "wrap_payload:res:Ok"),
+    "std::option::Option::<T>::unwrap_or_else": ("opt", "None", "nil", "direct", "payload"),
+    "std::option::Option::<T>::is_some_and": ("opt", "Some", "val", "direct", "false"),
+    "std::option::Option::<T>::or_else": ("opt", "None", "nil", "direct", "same"),
+    "std::result::Result::<T, E>::and_then": ("res", "Ok", "val", "direct", "forward:res:Err"),
+    "std::result::Result::<T, E>::map": ("res", "Ok", "val", "wrap:res:Ok", "forward:res:Err"),
+    "std::result::Result::<T, E>::map_err": ("res", "Err", "val", "wrap:res:Err", "forward:res:Ok"),
+    "std::result::Result::<T, E>::or_else": ("res", "Err", "val", "direct", "forward:res:Ok"),
+    "std::result::Result::<T, E>::unwrap_or_else": ("res", "Err", "val", "direct", "payload"),
+    "std::result::Result::<T, E>::is_ok_and": ("res", "Ok", "val", "direct", "false"),
+    "std::result::Result::<T, E>::is_err_and": ("res", "Err", "val", "direct", "false"),
+}
+ADT = {"opt": ("std::option::Option", ["None", "Some"]), "res": ("std::result::Result", ["Ok", "Err"])}
+
+
+def _expand_combinator(prog, t, locals_, blocks, b, file_):
+    """Rewrite the call block b (a std combinator applied to a closure literal) into explicit control
+    flow ending in a synthetic direct call of the closure body.  Returns the list of new block indices
+    (the closure-call block among them) or None if the call is not an expandable combinator."""
+    fj = t["f"]
+    spec = COMBINATORS.get(fj.get("path"))
+    if spec is None or len(t["args"]) != 2 or t.get("t") is None:
+        return None
+    scr, clo = t["args"]
+    if clo.get("k") not in ("copy", "move") or clo["p"]:
+        return None
+    cty = locals_[clo["l"]]
+    g = prog.by_key.get(cty.get("key")) if cty.get("k") == "closure" else None
+    if g is None or not g.blocks:
+        return None
+    adt, run_variant, passing, cbranch, obranch = spec
+    path, variants = ADT[adt]
+    other_variant = [v for v in variants if v != run_variant][0]
+    want_argc = 1 if passing == "nil" else 2
+    if g.argc != want_argc:
+        return None
+    ln = t.get("ln")
+    dest, target, unwind = t["dest"], t["t"], t.get("unwind")
+    new = []
+
+    def nl(ty):
+        locals_.append(ty)
+        return len(locals_) - 1
+
+    def nb(stmts, term):
+        blocks.append({"s": stmts, "t": term, "cleanup": False, "from": "<%s>" % fj.get("path", "").split("::")[-1], "file": file_})
+        new.append(len(blocks) - 1)
+        return len(blocks) - 1
+
+    def assign(place, rv):
+        return {"k": "assign", "place": place, "rv": rv, "ln": ln}
+
+    def pl(l, proj=None):
+        return {"l": l, "p": list(proj or [])}
+
+    def payload(l, variant, kind="move"):
+        vi = variants.index(variant)
+        return {"k": kind, "l": l, "p": [{"variant": variant, "vi": vi}, {"f": 0, "n": "0"}]}
+
+    def agg(p_, variant, ops):
+        return {"k": "agg", "agg": "adt", "path": p_, "variant": variant, "fields": ["0"] if ops else [], "ops": ops}
+
+    scr_ty = locals_[scr["l"]] if scr.get("k") in ("copy", "move") and not scr.get("p") else {"t": "?", "k": "other"}
+    s_l = nl(scr_ty)
+    d_l = nl({"t": "isize", "k": "prim"})
+    # closure receiver: by value, or by reference if the body takes `&self` / `&mut self`
+    recv_ty = g.locals[1]
+    pre = []
+    if recv_ty.get("t", "").startswith("&"):
+        r_l = nl(recv_ty)
+        pre.append(assign(pl(r_l), {"k": "ref", "mut": recv_ty["t"].startswith("&mut"), "place": pl(clo["l"])}))
+        recv = {"k": "move", "l": r_l, "p": []}
+    else:
+        recv = copy.deepcopy(clo)
+    # --- the branch that does not run the closure
+    if obranch == "none":
+        o_st = [assign(copy.deepcopy(dest), agg("std::option::Option", "None", []))]
+    elif obranch.startswith("forward:") or obranch.startswith("wrap_payload:"):
+        _, k_, v_ = obranch.split(":")
+        o_st = [assign(copy.deepcopy(dest), agg(ADT[k_][0], v_, [payload(s_l, other_variant)]))]
+    elif obranch == "payload":
+        o_st = [assign(copy.deepcopy(dest), {"k": "use", "x": payload(s_l, other_variant)})]
+    elif obranch == "false":
+        o_st = [assign(copy.deepcopy(dest), {"k": "use", "x": {"k": "const", "ty": "bool", "v": 0}})]
+    else:   # same
+        o_st = [assign(copy.deepcopy(dest), {"k": "use", "x": {"k": "move", "l": s_l, "p": []}})]
+    b_other = nb(o_st, {"k": "goto", "t": target})
+    # --- the branch that runs the closure
+    args = [recv]
+    c_st = list(pre)
+    if passing == "val":
+        a_l = nl(g.locals[2])
+        c_st.append(assign(pl(a_l), {"k": "use", "x": payload(s_l, run_variant)}))
+        args.append({"k": "move", "l": a_l, "p": []})
+    elif passing == "ref":
+        a_l = nl(g.locals[2])
+        c_st.append(assign(pl(a_l), {"k": "ref", "mut": False, "place": pl(s_l, [{"variant": run_variant, "vi": variants.index(run_variant)}, {"f": 0, "n": "0"}])}))
+        args.append({"k": "move", "l": a_l, "p": []})
+    callee = {"key": g.key, "local": True, "path": g.path, "full": g.path, "name": "{closure}", "closure_call": True}
+    if cbranch == "direct":
+        b_call = nb(c_st, {"k": "call", "f": callee, "args": args, "dest": copy.deepcopy(dest), "t": target, "unwind": unwind, "ln": ln})
+    elif cbranch.startswith("wrap:"):
+        _, k_, v_ = cbranch.split(":")
+        y_l = nl(g.locals[0])
+        b_wrap = nb([assign(copy.deepcopy(dest), agg(ADT[k_][0], v_, [{"k": "move", "l": y_l, "p": []}]))], {"k": "goto", "t": target})
+        b_call = nb(c_st, {"k": "call", "f": callee, "args": args, "dest": pl(y_l), "t": b_wrap, "unwind": unwind, "ln": ln})
+    else:   # keep_if
+        r2 = nl({"t": "bool", "k": "prim"})
+        b_keep = nb([assign(copy.deepcopy(dest), {"k": "use", "x": {"k": "move", "l": s_l, "p": []}})], {"k": "goto", "t": target})
+        b_drop = nb([assign(copy.deepcopy(dest), agg("std::option::Option", "None", []))], {"k": "goto", "t": target})
+        b_sw = nb([], {"k": "switch", "x": {"k": "move", "l": r2, "p": []}, "arms": [[0, b_drop]], "otherwise": b_keep, "ln": ln})
+        b_call = nb(c_st, {"k": "call", "f": callee, "args": args, "dest": pl(r2), "t": b_sw, "unwind": unwind, "ln": ln})
+    # --- the dispatching block (replaces the combinator call)
+    blk = blocks[b]
+    blk["s"].append(assign(pl(s_l), {"k": "use", "x": copy.deepcopy(scr)}))
+    blk["s"].append(assign(pl(d_l), {"k": "discr", "place": pl(s_l)}))
+    vi_run = variants.index(run_variant)
+    blk["t"] = {"k": "switch", "x": {"k": "move", "l": d_l, "p": []}, "arms": [[vi_run, b_call]], "otherwise": b_other, "ln": ln,
+                "expanded": fj.get("path")}
+    return new
+
+
 def inline(prog, f, pick=None, keep=(), depth=MAX_DEPTH, cross=None):
     """Return an inlined view of `f` (a fresh core.Fn; `f` itself if nothing was inlined)."""
     if pick is None:
@@ -128,6 +258,16 @@ def inline(prog, f, pick=None, keep=(), depth=MAX_DEPTH, cross=None):
         if t["k"] != "call" or len(blocks) > MAX_BLOCKS:
             continue
         fj = t["f"]
+        if fj.get("path") in COMBINATORS and len(stack_of[b]) <= depth:
+            newb = _expand_combinator(prog, t, locals_, blocks, b, blocks[b].get("file", f.file))
+            if newb:
+                for nb_ in newb:
+                    stack_of[nb_] = stack_of[b]
+                    if b in origin:
+                        origin[nb_] = origin[b]
+                    work.append(nb_)
+                inlined.append("<%s>" % fj["path"].split("::")[-1])
+                continue
         key = None
         if "r_key" in fj:
             if fj.get("r_local"):
@@ -140,7 +280,7 @@ def inline(prog, f, pick=None, keep=(), depth=MAX_DEPTH, cross=None):
         if len(t["args"]) != g.argc:
             continue
         from .core import Call
-        if not pick(Call(f, b, t), g):
+        if not fj.get("closure_call") and not pick(Call(f, b, t), g):
             continue
         lo = len(locals_)
         bo = len(blocks)
